@@ -146,6 +146,7 @@ static void back_(void *node_p) {
 }
 #elif defined(FUNC_NEXT) || defined(FUNC_PRIOR)
 static void base_(void *unused) {
+  __CPROVER_assert(SP == SP0 && prefix_kept(SP0), "C02 step, invariant on entry (base): the loop starts from the caller's path - nothing is popped or pushed before the first test (the caller may have a leaf OR an inner entry on top)");
 #if NODEKIND == 9
   VERIF_CANARY("loop head reachable from the entry"); __CPROVER_assume(0);
 #endif
